@@ -125,8 +125,14 @@ def rule_folds(ctx, mod, f):
 
 
 # ------------------------------------------------------------------ R-C01-3
+MALFORMED = ["#C", "bB", "b#Ab", "#", "b", "##", "#C#", "bbD", "C#x", "Cx", "Cb#b!", "H", "c", "c#", "cb", "h", "C-4", "C#-4", "C ", " C", "CC", "C#C",
+             "CbC", "C#B", "Cis", "Ces", "1", "C1", "C#1", "C\n", "C#\n", "\nC", "C/", "C|", "Cm", "CM7", "Bbb7", "x", "-", "C--", "C.", "do", "B\u266d", "C\u266f",
+             "\uff23", "Cbx#", "C#bx", "AbA", "GG#", "E#e", "Fb "]
+
+
 def rule_validity(ctx, mod, f):
     R = "R-C01-3"
+    undecided = []
     other_tail = nd.other_class({"#", "b"}, "OTHERTAIL")
     # heads that are no letter: an accidental sign in the first place, or anything else (two classes, so that code which
     # looks at the signs -- strip('#b'), count('#') -- is decided on each)
@@ -138,7 +144,13 @@ def rule_validity(ctx, mod, f):
         run = Run("T", [SHARP, FLAT, other_tail])
         s = AbsStr([head, run])
         # is_valid_note: True exactly when the head is a letter and no OTHER character occurs
-        paths = paths_of(ctx.repo, f["is_valid_note"], [s])
+        try:
+            paths = paths_of(ctx.repo, f["is_valid_note"], [s])
+        except CannotDecide as e:
+            # the predicate asks something the classes of this rule do not separate (e.g. whether a foreign character is
+            # a letter): no statement about the whole class; the battery of texts below decides its members
+            undecided.append("is_valid_note[%s]: %s" % (hname, e))
+            continue
         ok, why = bool(paths), ""
         seen_true = seen_false = False
         for p in paths:
@@ -170,7 +182,8 @@ def rule_validity(ctx, mod, f):
             try:
                 paths = paths_of(ctx.repo, fi, [s])
             except CannotDecide as e:
-                raise AnalysisError("%s on shape %s: %s" % (fname, hname, e))
+                undecided.append("%s[%s]: %s" % (fname, hname, e))
+                continue
             ok, why = bool(paths), ""
             for p in paths:
                 lo, hi = p.interp.lin_interval(Lin.of(run.count["OTHERTAIL"]))
@@ -188,6 +201,40 @@ def rule_validity(ctx, mod, f):
                     ok, why = False, "answers %r on a path that never looks whether the tail holds anything but '#' and 'b': a malformed name is accepted" % (p.value,)
                     break
             ctx.check(ok, R, "%s.rejects[%s]" % (fname, hname), _loc(fi), "%s(%s<any tail>)" % (fname, hname), why)
+
+    # a battery of texts that are no note names, evaluated as they stand: the predicate says False, the two converters refuse
+    bad = []
+    for text in MALFORMED:
+        for fname in ("is_valid_note", "note_to_int", "reduce_accidentals"):
+            try:
+                paths = paths_of(ctx.repo, f[fname], [text])
+            except CannotDecide as e:
+                raise AnalysisError("%s(%r): %s" % (fname, text, e))
+            if fname == "is_valid_note":
+                ok = len(paths) == 1 and paths[0].kind == "return" and paths[0].value is False
+            else:
+                ok = bool(paths) and all(p.kind == "raise" and p.value == "NoteFormatError" for p in paths)
+            if not ok:
+                bad.append("%s(%r) gives %s" % (fname, text, [(p.kind, p.value) for p in paths]))
+    ctx.check(not bad, R, "malformed-texts", _loc(f["is_valid_note"]), "is_valid_note / note_to_int / reduce_accidentals on %d texts that are no note names" % len(MALFORMED),
+              "%d wrong answers (expected False / NoteFormatError), e.g. %s" % (len(bad), bad[:3]))
+    # ... and of names, in every order of the signs
+    bad = []
+    for L in LETTERS:
+        for k in range(0, 4):
+            for signs in itertools.product("#b", repeat=k):
+                name = L + "".join(signs)
+                paths = paths_of(ctx.repo, f["is_valid_note"], [name])
+                if not (len(paths) == 1 and paths[0].kind == "return" and paths[0].value is True):
+                    bad.append("is_valid_note(%r) gives %s" % (name, [(p.kind, p.value) for p in paths]))
+                paths = paths_of(ctx.repo, f["note_to_int"], [name])
+                want = (NAT[L] + name.count("#") - name.count("b")) % 12
+                if not (len(paths) == 1 and paths[0].kind == "return" and paths[0].value == want):
+                    bad.append("note_to_int(%r) gives %s, expected %d" % (name, [(p.kind, p.value) for p in paths], want))
+    ctx.check(not bad, R, "well-formed-texts", _loc(f["is_valid_note"]), "is_valid_note / note_to_int on letter + up to three signs in any order",
+              "%d wrong answers, e.g. %s" % (len(bad), bad[:3]))
+    if undecided:
+        ctx.note(R, "no statement about a whole class of texts for %d shapes (%s); the batteries decide their members" % (len(undecided), undecided[0]))
 
 
 # ------------------------------------------------------------------ R-C01-4
